@@ -44,6 +44,8 @@ type World struct {
 	assumes   map[string]bool // recorded modelling assumptions (names)
 	anonN     int
 	implUsed  map[string]*types.Interface
+
+	needStrOrder bool
 }
 
 func NewWorld() *World {
